@@ -159,7 +159,7 @@ def wantOption (acc : Bytes → Bytes → Bool) (ty : Bytes) (w : Want) (key val
               let mj := decVal a
               let mn := decVal b
               if mj ≥ 2 ^ 32 || mn ≥ 2 ^ 32 then .inl none
-              else if mn < 256 then .inl (some { w with dev := some (t, mj, mn) })
+              else if mn < 2 ^ 20 then .inl (some { w with dev := some (t, mj, mn) })
               else .inr ()
             else .inl none
           | _ => .inl none
